@@ -540,6 +540,9 @@ def prog_features(r):
     f = []
     if r['lines'][-1]['rep'] in ('repe', 'repne'):
         f.append('repe_repne_termination')
+    mn = r['lines'][-1]['txt'].split()[0]
+    if mn.startswith('cmov') or mn.startswith('set') or mn in ('adc', 'sbb', 'rcl', 'rcr'):
+        f.append('flag_reader')       # the instruction combines status flags (constant flags are kept as 32-bit constants by eval_instr)
     return ','.join(f)
 
 
